@@ -42,14 +42,21 @@ def run(ck):
                 direct_fail.append(l.rstrip("\n"))
 
     def case_of(k):
-        return cases.get(k) or cases.get(k[:4], "")
+        if k in cases:
+            return cases[k]
+        if len(k) == 6 and k[:4] in cases:
+            # an input of the exhaustive 3-byte table: a replayable case line for just that input
+            t = int(k[0], 16)
+            return "case 1 x3 %s e=- det=0,0 r/%d/-/err/0" % (k, t if 1 <= t <= 14 else 1)
+        return ""
 
     witnessed = False
     for l in direct_fail:
         # direct ownership FAIL case=<id> ... / direct reencode FAIL case=<id> ...
-        clause = "ownership" if l.startswith("direct ownership") else "reencodable"
-        k = l.split("case=", 1)[1].split(" ", 1)[0]
-        ck.fail_input(clause, l, [case_of(k), l])
+        clause = ("ownership" if (l.startswith("direct ownership") or l.startswith("direct stream_ownership"))
+                  else "no_panic" if l.startswith("direct type_new") else "reencodable")
+        k = l.split("case=", 1)[1].split(" ", 1)[0] if "case=" in l else None
+        ck.fail_input(clause, l, ([case_of(k)] if k else []) + [l])
         witnessed = True
     tie_only = []
     for l in lines:
@@ -72,14 +79,14 @@ def run(ck):
         ck.fail_unwitnessed("correspondence Codec/Dec.v ~ packet.Decode/DetectPacket (%d disagreeing cases)" % len(tie_only), ks)
     if ck.tier == "thorough" and not ck.replay:
         ck.coqchk(["GM.Props.C02"])
-    ck.evaluations = ck.stats.get("model_cases", 0) + ck.stats.get("ownership_checks", 0) + ck.stats.get("reencode_checks", 0)
+    ck.evaluations = ck.stats.get("model_cases", 0) + ck.stats.get("ownership_checks", 0) + ck.stats.get("reencode_checks", 0) + ck.stats.get("stream_ownership_checks", 0)
     ck.distinct = ck.stats.get("model_distinct", 0)
     ck.extra["ownership_checks"] = ck.stats.get("ownership_checks", 0)
     ck.extra["reencode_checks"] = ck.stats.get("reencode_checks", 0)
     ck.rule = ("every input: DetectPacket vs detect_go; Decode of the type named by the first nibble and of mismatching types vs "
                "decode_go and vs ref_decode (accept iff, same fields, same count); when the declared extent fits: framed to the extent, "
                "extent + random tail, extent + a valid packet, all compared with the framed result (locality); source buffer overwritten "
-               "after every successful decode (ownership); every admitted PUBLISH / will re-encoded at each QoS <= its own. "
+               "after every successful decode, and packets read through packet.Decoder re-examined after later reads reused its pooled buffers (ownership); every admitted PUBLISH / will re-encoded at each QoS <= its own. "
                "Inputs: fixed corpus (repository test vectors, D1-D3 witnesses), all 1- and 2-byte strings, valid encodings of structured "
                "random packets of all 14 types with every prefix, every single-bit flip, byte/16-bit edits at every position, "
                "remaining-length edits and non-minimal encodings, all 16 flag and type nibbles, deletions, duplications, splices, "
